@@ -68,8 +68,8 @@ reg(P(
 reg(P(
     "C20", "Lint is advisory and diagnostics point at the right line",
     [("A6", ALL), ("A11", ALL), ("C7", ALL), ("B2", ALL), ("A5", {"check-only", "fatal"}), ("A1", {"lint"}), ("A7", {"memo-results"}), ("A8", {"filepath"})],
-    "lint and renderers never write the AST (A6) and never change in place a list a memoised AST query handed out (A7 part memo-results); every rule is registered, targets a supported type and cites the checked definition (A11); each rule tests its kind's convention with the right polarity (C7); positions come from tracked symbols, node token/column/line refer to the name symbol, the newline rule is the only line counter and no other token can swallow a newline, the diagnostic template contains file and L<line> (B2); check-only exits non-zero iff an error or a warning (A5).",
-    "column arithmetic of _get_col; behaviour of pascal_case/snake_case on arbitrary words.",
+    "lint and renderers never write the AST (A6) and never change in place a list a memoised AST query handed out (A7 part memo-results); every rule is registered, targets a supported type and cites the checked definition (A11); each rule tests its kind's convention with the right polarity (C7); positions come from tracked symbols, node token/column/line refer to the name symbol, the newline rule is the only line counter and no other token can swallow a newline, the diagnostic template contains file and L<line>, and the column recorded for a symbol is its offset from the last newline searched in the window [0, lexpos) in front of it, 1-based on every line including the first (B2, the return value of _get_col folded over a grid of newline / token offsets); check-only exits non-zero iff an error or a warning (A5).",
+    "the symbol indices of scope_start_col / scope_end_col and the indent measured on the first line of a file; behaviour of pascal_case/snake_case on arbitrary words.",
 ))
 
 reg(P(
